@@ -60,7 +60,8 @@ CONSTANTS MeshNames,     \* base meshes
           MaxLevel,      \* refinement levels 0..MaxLevel
           GeomIds,       \* indices into GmGeoms
           FieldIds,      \* indices into GmFields
-          Lattice,       \* K: sample points have local coordinates k / K
+          Lattice,       \* K: sample points have local coordinates k / K (meshes of dimension 1 and 2)
+          Lattice3,      \* K for meshes of dimension 3
           IntegrateOn,   \* base meshes on which integrals are taken
           GmMutant       \* "none" or the name of a deliberately wrong model variant
 
@@ -112,7 +113,7 @@ VZero(n) == TLCEval([i \in 1..n |-> QZero])
 GmUnit(n, d) == TLCEval([i \in 1..n |-> IF i = d THEN QOne ELSE QZero])
 MCol(A, j) == TLCEval([i \in 1..Len(A) |-> A[i][j]])
 MT(A, nc) == TLCEval([j \in 1..nc |-> MCol(A, j)])                  \* transpose of a matrix with nc columns
-MMul(A, B, nc) == TLCEval([i \in 1..Len(A) |-> TLCEval([j \in 1..nc |-> VDot(A[i], MCol(B, j))])])    \* B has nc columns
+MMul(A, B, nc) == LET BT == MT(B, nc) IN TLCEval([i \in 1..Len(A) |-> TLCEval([j \in 1..nc |-> VDot(A[i], BT[j])])])    \* B has nc columns
 MVec(A, v) == TLCEval([i \in 1..Len(A) |-> VDot(A[i], v)])
 \* linear combination sum_k c[k] cols[k] of vectors of length n
 LinComb(c, cols, n) == TLCEval([i \in 1..n |-> QSum(TLCEval([k \in 1..Len(c) |-> QMul(c[k], cols[k][i])]))])
@@ -207,8 +208,10 @@ GmGeoms == <<
   [m |-> 2, n |-> 3, sep |-> FALSE, G |-> << <<<<1,0,1,0>>>>, <<<<1,1,0,0>>>>,                      \* 21: (y, x, x + 2y) affine, reversing
                                              <<<<1,1,0,0>>, <<2,0,1,0>>>> >>]
 >>
-NoGeom == [id |-> 0, m |-> 0, n |-> 0, sep |-> FALSE, G |-> <<>>]
-GeomRec(i) == [id |-> i, m |-> GmGeoms[i].m, n |-> GmGeoms[i].n, sep |-> GmGeoms[i].sep, G |-> GmGeoms[i].G]
+\* dG: the polynomials d G_i / d x0_j (kept in the state: TLC does not memoise operator applications)
+NoGeom == [id |-> 0, m |-> 0, n |-> 0, sep |-> FALSE, G |-> <<>>, dG |-> <<>>]
+GeomRec(i) == [id |-> i, m |-> GmGeoms[i].m, n |-> GmGeoms[i].n, sep |-> GmGeoms[i].sep, G |-> GmGeoms[i].G,
+               dG |-> TLCEval([a \in 1..GmGeoms[i].n |-> TLCEval([b \in 1..GmGeoms[i].m |-> TLCEval(PDiff(GmGeoms[i].G[a], b))])])]
 
 (***************************************************************************)
 (* the fields p(X): n = number of variables, P = components                *)
@@ -233,8 +236,13 @@ GmFields == <<
   [n |-> 3, kind |-> "v", P |-> << <<<<1,2,0,0>>, <<1,0,0,1>>>>, <<<<1,1,1,0>>>>, <<<<1,0,1,0>>, <<0-1,0,0,2>>>> >>],  \* 14: (x^2 + z, x y, y - z^2)
   [n |-> 3, kind |-> "v", P |-> << <<<<1,0,0,1>>>>, <<<<1,1,0,0>>>>, <<<<1,0,1,0>>, <<1,1,0,0>>>> >>]    \* 15: (z, x, y + x)
 >>
-NoField == [id |-> 0, n |-> 0, kind |-> "", P |-> <<>>]
-FieldRec(i) == [id |-> i, n |-> GmFields[i].n, kind |-> GmFields[i].kind, P |-> GmFields[i].P]
+RECURSIVE PConcat(_, _)
+PConcat(Ps, k) == IF k = 0 THEN <<>> ELSE PConcat(Ps, k - 1) \o Ps[k]
+\* dP: the polynomials d p_c / d X_j; lapP: sum_j d^2 p_c / d X_j^2
+NoField == [id |-> 0, n |-> 0, kind |-> "", P |-> <<>>, dP |-> <<>>, lapP |-> <<>>]
+FieldRec(i) == [id |-> i, n |-> GmFields[i].n, kind |-> GmFields[i].kind, P |-> GmFields[i].P,
+                dP |-> TLCEval([c \in 1..Len(GmFields[i].P) |-> TLCEval([j \in 1..GmFields[i].n |-> TLCEval(PDiff(GmFields[i].P[c], j))])]),
+                lapP |-> TLCEval([c \in 1..Len(GmFields[i].P) |-> TLCEval(PConcat(TLCEval([j \in 1..GmFields[i].n |-> TLCEval(PDiff(PDiff(GmFields[i].P[c], j), j))]), GmFields[i].n))])]
 
 (***************************************************************************)
 (* reference cells                                                         *)
@@ -318,10 +326,13 @@ BMat(el) == FromCols(el.E, Len(el.o))                     \* d x0 / d xi
 Children(el) == {MkElem(el.ref, X0(el, c.off), TLCEval([k \in 1..Len(el.E) |-> LinComb(c.lin[k], el.E, Len(el.o))])) : c \in ChildMaps(el.ref)}
 ElemVerts(el) == {X0(el, xi) : xi \in LatPts(el.ref, 1)}
 FacetVerts(el, f) == {X0(el, FacetMap(f, eta)) : eta \in LatPts(f.ft, 1)}
-AllFacets == UNION {{[el |-> el, f |-> f] : f \in RefFacets(el.ref)} : el \in mesh.elems}
-FV(x) == FacetVerts(x.el, x.f)
-BoundaryFacets == LET A == AllFacets IN {x \in A : \A y \in A : y = x \/ FV(y) # FV(x)}
-InterfaceFacets == LET A == AllFacets IN {x \in A : \E y \in A : y # x /\ FV(y) = FV(x)}
+\* all facets of all elements, with their vertex sets (computed once)
+AllFacetsOf(E) == UNION {{[el |-> el, f |-> f, fv |-> FacetVerts(el, f)] : f \in RefFacets(el.ref)} : el \in E}
+\* a facet that belongs to one element only is a boundary facet, one that is shared by two an interface
+BoundaryFacetsOf(E) == LET A == AllFacetsOf(E) IN {x \in A : \A y \in A : y = x \/ y.fv # x.fv}
+InterfaceFacetsOf(E) == LET A == AllFacetsOf(E) IN {x \in A : \E y \in A : y # x /\ y.fv = x.fv}
+BoundaryFacets == BoundaryFacetsOf(mesh.elems)
+InterfaceFacets == InterfaceFacetsOf(mesh.elems)
 
 (***************************************************************************)
 (* lowering at a point: the implementation route                           *)
@@ -329,15 +340,15 @@ InterfaceFacets == LET A == AllFacets IN {x \in A : \E y \in A : y # x /\ FV(y) 
 M == geom.m
 N == geom.n
 \* d geom / d x0 at x0 (N x M)
-DGeom(x0) == TLCEval([i \in 1..N |-> TLCEval([j \in 1..M |-> PEval(PDiff(geom.G[i], j), x0)])])
+DGeom(x0) == TLCEval([i \in 1..N |-> TLCEval([j \in 1..M |-> PEval(geom.dG[i][j], x0)])])
 GeomAt(x0) == TLCEval([i \in 1..N |-> PEval(geom.G[i], x0)])
 \* R = d geom / d ref: the root derivative of the geometry, DG B
 RGrad(el, x0) == IF GmMutant = "no-chain" THEN DGeom(x0) ELSE MMul(DGeom(x0), BMat(el), M)
 NComp == Len(field.P)
 FieldAt(X) == TLCEval([c \in 1..NComp |-> PEval(field.P[c], X)])
 \* p'(X): the defining gradient (NComp x N)
-DField(X) == TLCEval([c \in 1..NComp |-> TLCEval([j \in 1..N |-> PEval(PDiff(field.P[c], j), X)])])
-LapField(X) == TLCEval([c \in 1..NComp |-> QSum(TLCEval([j \in 1..N |-> PEval(PDiff(PDiff(field.P[c], j), j), X)]))])
+DField(X) == TLCEval([c \in 1..NComp |-> TLCEval([j \in 1..N |-> PEval(field.dP[c][j], X)])])
+LapField(X) == TLCEval([c \in 1..NComp |-> PEval(field.lapP[c], X)])
 Trace(A) == QSum(TLCEval([i \in 1..Len(A) |-> A[i][i]]))
 CurlOf(A) == IF Len(A) = 3 /\ N = 3
              THEN <<QSub(A[3][2], A[2][3]), QSub(A[1][3], A[3][1]), QSub(A[2][1], A[1][2])>>
@@ -360,6 +371,9 @@ InteriorRow(el, xi) ==
         j2 |-> QDet(Gram(R, M)),
         sg |-> IF N = M THEN QSgn(QDet(R)) ELSE 0,
         nv |-> IF N = M + 1 THEN Cross(R) ELSE <<>>,
+        \* the exterior normal with respect to the reference geometry x0 (function.normal(geom, refgeom), _ExteriorNormal)
+        nx |-> IF N = M + 1 THEN Cross(DGeom(x0)) ELSE <<>>,
+        rc |-> IF N = M + 1 THEN MT(R, M) ELSE <<>>,               \* the tangents of the manifold (columns of R)
         \* per-space operators of a product topology with a separable geometry: d p / d X_k and |d X_k / d ref_k|
         gs |-> IF mesh.name = "prod" /\ geom.sep THEN TLCEval([c \in 1..NComp |-> TLCEval([k \in 1..M |-> QDiv(VDot(DField(X)[c], MCol(R, k)), R[k][k])])]) ELSE <<>>,
         js |-> IF mesh.name = "prod" /\ geom.sep THEN TLCEval([k \in 1..M |-> QMul(R[k][k], R[k][k])]) ELSE <<>>]
@@ -392,9 +406,11 @@ FacetNv(el, f, eta) ==
         R == RGrad(el, x0)
         c == Cross(MMul(R, FromCols(f.T, M), M - 1))
     IN IF QSgn(VDot(c, MVec(R, OutDir(el.ref, f)))) = 1 THEN c ELSE VNeg(c)
-PointsOf(el) == LatPts(el.ref, Lattice)
+\* (refined three-dimensional meshes are sampled at the vertices only)
+LatticeK == IF mesh.m = 3 THEN (IF mesh.level = 0 THEN Lattice3 ELSE 1) ELSE Lattice
+PointsOf(el) == LatPts(el.ref, LatticeK)
 InteriorRows == UNION {{InteriorRow(el, xi) : xi \in PointsOf(el)} : el \in mesh.elems}
-FacetRows(F) == UNION {{FacetRow(x.el, x.f, eta) : eta \in LatPts(x.f.ft, Lattice)} : x \in F}
+FacetRows(F) == UNION {{FacetRow(x.el, x.f, eta) : eta \in LatPts(x.f.ft, LatticeK)} : x \in F}
 
 (***************************************************************************)
 (* exact integrals: closed Newton-Cotes rules with np points per direction *)
@@ -448,14 +464,16 @@ SumOver(S, H(_)) == LET RECURSIVE go(_)
                     IN go(S)
 ElemIntRow(el) == LET ff(f) == FacetFlux(el, f)
                   IN [ev |-> ElemVerts(el), vol |-> CellVol(el), int |-> CellInt(el), flux |-> SumOver(RefFacets(el.ref), ff)]
-Integrals ==
-    LET rows == {ElemIntRow(el) : el \in mesh.elems}
+\* (a function of the element set: TLC does not cache LET values inside primed expressions)
+IntegralsOf(E) ==
+    LET rows == {ElemIntRow(el) : el \in E}
         fl(x) == FacetFlux(x.el, x.f)
         rv(r) == r.vol
         ri(r) == r.int
     IN [rows |-> rows,
         tot |-> [vol |-> SumOver(rows, rv), int |-> SumOver(rows, ri),
-                 flux |-> SumOver(BoundaryFacets, fl), iflux |-> SumOver(InterfaceFacets, fl)]]
+                 flux |-> SumOver(BoundaryFacetsOf(E), fl), iflux |-> SumOver(InterfaceFacetsOf(E), fl)]]
+Integrals == IntegralsOf(mesh.elems)
 NoTot == [vol |-> QZero, int |-> QZero, flux |-> QZero, iflux |-> QZero]
 
 (***************************************************************************)
@@ -463,7 +481,7 @@ NoTot == [vol |-> QZero, int |-> QZero, flux |-> QZero, iflux |-> QZero]
 (***************************************************************************)
 MkMesh(name, level, elems) == [name |-> name, level |-> level, m |-> MeshDim(name), elems |-> elems]
 \* the geometry is regular at every point that is looked at: the measure does not vanish and does not change sign
-Regular(g) == LET RAt(el, xi) == MMul(TLCEval([i \in 1..g.n |-> TLCEval([j \in 1..g.m |-> PEval(PDiff(g.G[i], j), X0(el, xi))])]), BMat(el), g.m)
+Regular(g) == LET RAt(el, xi) == MMul(TLCEval([i \in 1..g.n |-> TLCEval([j \in 1..g.m |-> PEval(g.dG[i][j], X0(el, xi))])]), BMat(el), g.m)
                   pts(el) == LatPts(el.ref, 1) \cup {RefCentroid(el.ref)}
                   \* the sign of det(d geom / d x0) (domains): the same everywhere
                   sgn(el, xi) == QSgn(QDet(RAt(el, xi))) * QSgn(QDet(BMat(el)))
@@ -497,9 +515,9 @@ Integrate == /\ stage = "field" /\ CanIntegrateAll
              /\ stage' = "integrals" /\ res' = Integrals
              /\ UNCHANGED <<mesh, geom, field>>
 RefineIntegrals == /\ stage = "integrals" /\ mesh.level < MaxLevel /\ mesh.name \in RefineOn
-                   /\ mesh' = MkMesh(mesh.name, mesh.level + 1, UNION {Children(el) : el \in mesh.elems})
+                   /\ LET kids == UNION {Children(el) : el \in mesh.elems}
+                      IN mesh' = MkMesh(mesh.name, mesh.level + 1, kids) /\ res' = IntegralsOf(kids)
                    /\ UNCHANGED <<geom, field, stage>>
-                   /\ res' = Integrals'
 Next == Refine \/ SetGeom \/ SetField \/ EvalInterior \/ EvalBoundary \/ EvalInterfaces \/ Integrate \/ RefineIntegrals
 Spec == Init /\ [][Next]_vars
 
@@ -532,11 +550,11 @@ NormalOutward == stage \in {"boundary", "interfaces"} => \A r \in res.rows : QSg
 NormalRoutes == stage \in {"boundary", "interfaces"} => \A r \in res.rows : PosParallel(r.nI, r.nv) /\ PosParallel(r.nD, r.nv)
 \* the exterior normal of a manifold is orthogonal to the manifold
 ExteriorOrthogonal == (stage = "interior" /\ N = M + 1) =>
-                         \A r \in res.rows : \A el \in mesh.elems : r.ev = ElemVerts(el) =>
-                             \A k \in 1..M : VDot(r.nv, MCol(RGrad(el, r.x0), k))[1] = 0
+                         \A r \in res.rows : /\ \A k \in 1..M : VDot(r.nv, r.rc[k])[1] = 0 /\ VDot(r.nx, r.rc[k])[1] = 0
+                                             /\ VDot(r.nx, r.nx)[1] > 0
 \* both sides of an interface: same point, opposite N dS (domains), opposite direction (manifolds)
 InterfaceOpposite == stage = "interfaces" =>
-                        \A r \in res.rows : \E s \in res.rows : /\ s.fv = r.fv /\ s.x0 = r.x0 /\ s.ev # r.ev
+                        \A r \in res.rows : \E s \in res.rows : /\ s.x0 = r.x0 /\ s.fv = r.fv /\ s.ev # r.ev
                                                                 /\ IF N = M THEN s.nv = VNeg(r.nv) ELSE PosParallel(s.nv, VNeg(r.nv))
 DivTheoremElem == (stage = "integrals" /\ IsVec) => \A r \in res.rows : r.flux = r.int
 DivTheoremMesh == (stage = "integrals" /\ IsVec) => res.tot.flux = res.tot.int /\ res.tot.iflux = QZero
@@ -545,7 +563,8 @@ VolumePositive == stage = "integrals" => res.tot.vol[1] > 0 /\ \A r \in res.rows
 PerSpace == (stage = "interior" /\ mesh.name = "prod" /\ geom.sep) =>
                \A r \in res.rows : r.gs = DField(r.X)
 \* refinement changes no integral
-RefinePreservesStep == (stage = "integrals" /\ stage' = "integrals" /\ mesh'.level = mesh.level + 1) => res'.tot = res.tot
+RefinePreservesStep == (stage = "integrals" /\ stage' = "integrals" /\ mesh'.level = mesh.level + 1) =>
+                          (res'.tot = res.tot /\ PrintT(<<"VF", ToJson([tab |-> "refine-preserved", mesh |-> mesh.name, geom |-> geom.id, field |-> field.id])>>))
 RefinePreserves == [][RefinePreservesStep]_vars
 TypeOK == /\ stage \in {"mesh", "geom", "field", "interior", "boundary", "interfaces", "integrals"}
           /\ mesh.elems # {}
@@ -559,6 +578,6 @@ Snapshot == [mesh |-> mesh.name, level |-> mesh.level, nelems |-> Cardinality(me
              elems |-> {ElemVerts(el) : el \in mesh.elems},
              geom |-> geom.id, G |-> geom.G, m |-> M, n |-> N, sep |-> geom.sep,
              field |-> field.id, kind |-> field.kind, P |-> field.P,
-             stage |-> stage, lattice |-> Lattice, rows |-> res.rows, tot |-> res.tot]
+             stage |-> stage, lattice |-> LatticeK, rows |-> res.rows, tot |-> res.tot]
 EmitEval == (stage \in PointStages \cup {"integrals"}) => Emit(Snapshot)
 =============================================================================
